@@ -20,16 +20,16 @@ import (
 
 func cases(tier string) int {
 	if tier == "thorough" {
-		return 100000
+		return 400000
 	}
-	return 3000
+	return 30000
 }
 
 func cliEvery(tier string) int {
 	if tier == "thorough" {
-		return 200 // 500 CLI cases
+		return 400 // 1000 CLI cases
 	}
-	return 100 // 30 CLI cases
+	return 500 // 60 CLI cases
 }
 
 var Check = &run.Check{
